@@ -115,28 +115,31 @@ type Reply struct {
 
 // KDC is the model of one realm's KDC.
 type KDC struct {
-	Realm          string
-	Now            func() time.Time
-	Principals     map[string]*Principal
-	TGSKey         Key               // krbtgt/REALM@REALM
-	CrossOut       map[string]Key    // krbtgt/OTHER@REALM keys (this realm issues, OTHER consumes)
-	CrossIn        map[string]Key    // krbtgt/REALM@OTHER keys (OTHER issued, this realm consumes)
-	Referral       map[string]string // service host suffix -> next realm (canonicalization referrals)
-	RequirePA      bool
-	MaxLife        time.Duration
-	MaxRenew       time.Duration
-	Skew           time.Duration
-	Expect         Expect
-	Issued         []Issued
-	Requests       []Request
-	Violations     []string
-	Perturb        func(r *Reply)
-	ErrorReply     func(req *krbmsg.KDCReq) *int32 // adversary: answer with this KRB-ERROR code instead
-	seenNonces     map[int64]bool
-	rnd            *rand.Rand
-	AdvertiseETI2  bool // include ETYPE-INFO2 in AS-REP padata for password principals
-	EncTag25ForTGS bool // benign variation: seal the TGS enc-part with application tag 25
-	EncTag26ForAS  bool // benign variation: seal the AS enc-part with application tag 26
+	Realm      string
+	Now        func() time.Time
+	Principals map[string]*Principal
+	TGSKey     Key               // krbtgt/REALM@REALM
+	CrossOut   map[string]Key    // krbtgt/OTHER@REALM keys (this realm issues, OTHER consumes)
+	CrossIn    map[string]Key    // krbtgt/REALM@OTHER keys (OTHER issued, this realm consumes)
+	Referral   map[string]string // service host suffix -> next realm (canonicalization referrals)
+	RequirePA  bool
+	MaxLife    time.Duration
+	MaxRenew   time.Duration
+	Skew       time.Duration
+	Expect     Expect
+	Issued     []Issued
+	Requests   []Request
+	// LenientAuthCRealm: also accept an authenticator whose crealm is the realm of the presented ticket instead
+	// of the client's realm (what lenient KDCs tolerate); used to explore referral chains past the known finding.
+	LenientAuthCRealm bool
+	Violations        []string
+	Perturb           func(r *Reply)
+	ErrorReply        func(req *krbmsg.KDCReq) *int32 // adversary: answer with this KRB-ERROR code instead
+	seenNonces        map[int64]bool
+	rnd               *rand.Rand
+	AdvertiseETI2     bool // include ETYPE-INFO2 in AS-REP padata for password principals
+	EncTag25ForTGS    bool // benign variation: seal the TGS enc-part with application tag 25
+	EncTag26ForAS     bool // benign variation: seal the AS enc-part with application tag 26
 }
 
 // New creates an empty KDC model.
@@ -588,7 +591,7 @@ func (k *KDC) handleTGS(req *krbmsg.KDCReq) []byte {
 		k.violate("authenticator malformed: %v", err)
 		return k.errReply(31, req, nil)
 	}
-	if !auth.CName.SameName(etp.CName) || auth.CRealm != etp.CRealm {
+	if !auth.CName.SameName(etp.CName) || (auth.CRealm != etp.CRealm && !(k.LenientAuthCRealm && auth.CRealm == tkt.Realm)) {
 		k.violate("authenticator client %v@%s differs from the ticket's %v@%s", auth.CName.Names, auth.CRealm, etp.CName.Names, etp.CRealm)
 		return k.errReply(36, req, nil)
 	}
